@@ -1693,7 +1693,8 @@ class EnumNode(AstNode):
             if member.value is not None:
                 try:
                     literal = todict.print_node(member.value)
-                    if len(literal) > 1 and literal[0] == "0":
+                    digits = literal.lstrip("+-")
+                    if len(digits) > 1 and digits[0] == "0":
                         # C++ reads a leading 0 as an octal literal.
                         cvalue = int(literal, 8)
                     else:
